@@ -48,3 +48,11 @@ $(foreach h,$(SINGLE_HARNESSES),$(eval $(call SINGLE_RULES,$(h))))
 .PHONY: clean
 clean:
 	rm -rf build
+
+# MCSCHED harnesses: the runtime is compiled without instrumentation
+$(B)/mc_rt.o: engine/mcsched/mc_rt.cpp $(ENGHDRS)
+	@mkdir -p $(B)
+	$(CXX) -std=c++17 -O1 -g1 $(WARN) $(INC) -c -o $@ $<
+$(B)/mc_pool: harness/mc_pool.cpp $(B)/mc_rt.o $(LIBHDRS) $(ENGHDRS)
+	@mkdir -p $(B)
+	$(CXX) $(BASEFLAGS) -O1 -g1 -pthread -o $@ harness/mc_pool.cpp $(B)/mc_rt.o
